@@ -715,6 +715,10 @@ class Interp:
 
     def ev_UnaryOp(self, n, env):
         v = self.ev(n.operand, env)
+        if isinstance(n.op, ast.USub) and isinstance(v, Const) and isinstance(v.value, (int, float)) and not isinstance(v.value, bool):
+            return Const(-v.value)
+        if isinstance(n.op, ast.USub) and isinstance(v, ScalV) and v.s is not None:
+            return ScalV(s=-v.s)
         if isinstance(n.op, ast.USub) and isinstance(v, ArrV):
             return ArrV(v.rows, v.cols, origin="neg", form=(-v.form) if v.form is not None else None)
         return Unknown("unary")
@@ -1033,7 +1037,18 @@ class Interp:
         if name == "set":
             if isinstance(a0, CollV):
                 return CollV(a0.role, "set")
+            if isinstance(a0, SeqV) and len(a0.layout.segs) == 1 and a0.layout.segs[0][0] in ("SORT", "UNORD", "REV"):
+                seg = a0.layout.segs[0]
+                while seg[0] == "REV":
+                    seg = seg[1]
+                return UnordSeqV(seg[1], a0.elem)           # a set forgets the order
+            if isinstance(a0, UnordSeqV):
+                return a0
             return Unknown("set()")
+        if name == "reversed":
+            if isinstance(a0, SeqV):
+                return SeqV(Layout(tuple(("REV", g) for g in reversed(a0.layout.segs))), a0.elem)
+            return Unknown("reversed()")
         if name == "len":
             return self.do_len(a0)
         if name == "range":
@@ -1433,7 +1448,7 @@ def _jac_check(self, yields, env, n):
 
 Interp.check_cpp_statements = _jac_check
 
-BUILTINS = {"sorted", "list", "set", "len", "range", "enumerate", "zip", "str", "float", "dict", "isinstance", "print", "abs", "min", "max", "any", "all", "int", "tuple", "type", "iter", "map", "filter", "locals"}
+BUILTINS = {"reversed", "sorted", "list", "set", "len", "range", "enumerate", "zip", "str", "float", "dict", "isinstance", "print", "abs", "min", "max", "any", "all", "int", "tuple", "type", "iter", "map", "filter", "locals"}
 
 
 def to_scalar(v):
